@@ -100,6 +100,12 @@ func c02Event(src, style, format, entry, alg string, interpolate bool, seed int6
 		}
 		var after []*pipeline.CommandStep
 		venv := map[string]string{"BUILDKITE_UNRELATED": "x", "CI": "true"}
+		if seed%2 == 0 {
+			// unrelated job variables may carry ANY name - also the names of the signed object fields
+			for _, k := range []string{"command", "env", "plugins", "matrix", "repository_url"} {
+				venv[k] = "unrelated-" + k
+			}
+		}
 		switch entry {
 		case "parse":
 			var text []byte
@@ -256,6 +262,9 @@ func c02Overlap(doc any, rng *rand.Rand) any {
 	// an env-block name that interpolation renames onto a name defined LATER in the block: the
 	// ordered map then holds a dead pair behind the live one (Replace tombstones, it does not compact)
 	penv = append(append(orderedJSON{}, penv...), [2]any{"${C02_RENAME}", "renamed"}, [2]any{"C02_TARGET", "original"})
+	if rng.Intn(2) == 0 {
+		penv = append(penv, [2]any{"plugins", "docker,ecr"}, [2]any{"command", "from-env"}) // pipeline variables named like signed fields
+	}
 	for pi, p := range top {
 		if p[0] == "env" {
 			top[pi] = [2]any{"env", penv}
@@ -277,6 +286,22 @@ func c02Overlap(doc any, rng *rand.Rand) any {
 					if l, ok := p[1].([]any); ok {
 						walk(l)
 					}
+				}
+			}
+			if isCmd && rng.Intn(4) == 0 {
+				// a command step whose command is EMPTY and that has no plugins: only the (empty) `command` key says what it is
+				hasPlugins, cmdAt := false, -1
+				for pi, p := range m {
+					if p[0] == "plugins" || p[0] == "commands" {
+						hasPlugins = true
+					}
+					if p[0] == "command" {
+						cmdAt = pi
+					}
+				}
+				if !hasPlugins && cmdAt >= 0 {
+					m[cmdAt] = [2]any{"command", ""}
+					steps[si] = m
 				}
 			}
 			if !isCmd || rng.Intn(2) == 0 {
